@@ -32,6 +32,10 @@ pub enum WStep {
     Settle,
     /// the 60 s GC period elapses before the next processed batch
     Gc,
+    /// the write phase of the next recompile (not a settle probe) meets this fault at the
+    /// system-call seam; the loop must survive it and the directory must be whole again at
+    /// the next quiescent point (C19 "in the same watch session")
+    FaultNextWrite(crate::sysfault::SysFault),
 }
 
 #[derive(Serialize, Deserialize, Clone, Debug, PartialEq, Eq, Hash)]
@@ -82,6 +86,9 @@ struct Driver {
     mkdir_at: BTreeMap<PathBuf, u64>,
     cookie: usize,
     gc_requested: bool,
+    pending_sys: Option<crate::sysfault::SysFault>,
+    sys_armed: bool,
+    fault_since_clean_probe: bool,
     violations: Vec<Violation>,
     counters: BTreeMap<String, u64>,
     log: Vec<u8>,
@@ -129,6 +136,9 @@ impl Driver {
             mkdir_at: BTreeMap::new(),
             cookie: 100,
             gc_requested: false,
+            pending_sys: None,
+            sys_armed: false,
+            fault_since_clean_probe: false,
             violations: vec![],
             counters: BTreeMap::new(),
             log: vec![],
@@ -395,6 +405,11 @@ impl Driver {
                             self.next_step += 1;
                             continue;
                         }
+                        Some(WStep::FaultNextWrite(f)) if next_edit.is_none() => {
+                            self.pending_sys = Some(*f);
+                            self.next_step += 1;
+                            continue;
+                        }
                         Some(WStep::Settle) => {
                             self.now_us = self.now_us.max(t);
                             return true;
@@ -440,6 +455,10 @@ fn next_for_loop(d: &mut Driver) -> Option<Batch> {
             }
             Some(WStep::Gc) => {
                 d.gc_requested = true;
+                d.next_step += 1;
+            }
+            Some(WStep::FaultNextWrite(f)) => {
+                d.pending_sys = Some(f);
                 d.next_step += 1;
             }
             Some(WStep::Settle) | None => {
@@ -507,8 +526,15 @@ fn check_against_fresh(d: &mut Driver, state: &State) {
         let tree = world::snapshot(&w.artifact_dir());
         if let Some(diff) = world::describe_diff(&tree, artifacts) {
             let step = d.next_step;
-            d.violations.push(Violation { property: "C20", kind: "artifact-directory-differs", detail: format!("at a quiescent point of watch mode: {diff}"), step });
+            if d.fault_since_clean_probe {
+                d.violations.push(Violation { property: "C19", kind: "not-repaired-after-interrupted-write", detail: format!("at the quiescent point of watch mode that follows a failed write phase (and a successful recompile): {diff}"), step });
+            } else {
+                d.violations.push(Violation { property: "C20", kind: "artifact-directory-differs", detail: format!("at a quiescent point of watch mode: {diff}"), step });
+            }
+        } else if d.fault_since_clean_probe {
+            d.bump("recovered_after_fault");
         }
+        d.fault_since_clean_probe = false;
     }
 }
 
@@ -516,6 +542,9 @@ pub fn run(case: &WatchCase, tag: u64) -> Outcome {
     let w = World::create(tag);
     cx::clear_hooks();
     cx::install_sorted_enumeration();
+    // records the writer's operations and marks them in the libc call log (faults of the
+    // system-call seam are addressed relative to an operation)
+    let _fs_record = cx::install_fs_hook(w.artifact_dir(), None);
     pico::verif_hooks::set_capacity_override(std::num::NonZeroUsize::new(case.capacity.max(1)));
     for d in [0usize, 1, 2, 3, 6] {
         let _ = std::fs::create_dir_all(w.abs(DIRS[d]));
@@ -538,6 +567,12 @@ pub fn run(case: &WatchCase, tag: u64) -> Outcome {
                     d.gc_requested = false;
                     d.bump("fault.gc");
                 }
+                if !b.probe && d.pending_sys.is_some() && crate::sysfault::available() {
+                    // the window stays open while the loop processes this batch
+                    let dir = d.world().artifact_dir();
+                    crate::sysfault::arm(&dir, d.pending_sys.take());
+                    d.sys_armed = true;
+                }
                 if let Some(tx) = &d.sender {
                     tx.try_send(b.events).unwrap_or_else(|_| panic!("harness: channel full"));
                 }
@@ -553,6 +588,18 @@ pub fn run(case: &WatchCase, tag: u64) -> Outcome {
     verif_hooks::set_after_watch_iteration(Some(Box::new(move |any_state| {
         let state: &mut State = any_state.downcast_mut::<State>().expect("harness: state type");
         let mut d = d2.borrow_mut();
+        if d.sys_armed {
+            let rec = crate::sysfault::disarm();
+            d.sys_armed = false;
+            if rec.fired {
+                d.fault_since_clean_probe = true;
+                d.bump("fault.sys_fault_in_watch_mode_write_phase");
+                let k = format!("probe.sys_fault_hit_{}", rec.fired_what);
+                d.bump(&k);
+            } else {
+                d.bump("sys_faults_not_reached");
+            }
+        }
         d.batches_processed += 1;
         let k = d.batches_processed as usize;
         let dur = d.compile_ms[k % d.compile_ms.len()] as u64 * 1000;
@@ -579,6 +626,10 @@ pub fn run(case: &WatchCase, tag: u64) -> Outcome {
     drop(rt);
     verif_hooks::set_after_watch_iteration(None);
     let mut d = driver.borrow_mut();
+    if d.sys_armed {
+        let _ = crate::sysfault::disarm();
+        d.sys_armed = false;
+    }
     let finished = d.sender.is_none();
     match result {
         Ok(()) if finished => {}
@@ -628,7 +679,7 @@ pub fn generate(seed: u64) -> WatchCase {
     }
     let compile_ms: Vec<u16> = (0..3).map(|_| *rng.pick(&[0u16, 0, 5, 40, 150, 300])).collect();
     // swarm: which op kinds are enabled in this run
-    let mut w: [u32; 9] = [12, 4, 3, 2, 2, 2, 2, 1, 5];
+    let mut w: [u32; 10] = [12, 4, 3, 2, 2, 2, 2, 1, 5, 2];
     for (i, x) in w.iter_mut().enumerate() {
         if i != 0 && rng.chance(1, 4) {
             *x = 0;
@@ -651,6 +702,11 @@ pub fn generate(seed: u64) -> WatchCase {
             5 => WStep::Edit { op: EdOp::RenameDir(rng.below(DIRS.len() as u64) as usize, rng.below(DIRS.len() as u64) as usize), after_ms },
             6 => WStep::Edit { op: if rng.chance(2, 3) { EdOp::WriteSchema(*rng.pick(&[0usize, 0, 0, 1, 1, 2, 3])) } else { EdOp::WriteExt(*rng.pick(&[0usize, 0, 1, 1, 2])) }, after_ms },
             7 => WStep::Gc,
+            9 => {
+                use crate::sysfault::{SysFault, SysKind};
+                let kind = *rng.pick(&[SysKind::Err(libc::EIO), SysKind::Err(libc::ENOSPC), SysKind::Err(libc::EACCES), SysKind::ErrAfter(libc::EIO), SysKind::Torn(libc::ENOSPC), SysKind::Full]);
+                WStep::FaultNextWrite(SysFault { at: *rng.pick(&[0u32, 0, 1, 1, 2, 3, 5, 9, 17]), kind, op: Some(*rng.pick(&[0u32, 0, 0, 1, 1, 2, 3, 5, 8])) })
+            }
             _ => WStep::Settle,
         };
         steps.push(step);
